@@ -151,6 +151,27 @@ def oor_inflight_scenarios(base_id):
     return out
 
 
+def late_comer_scenarios(base_id):
+    """a partition whose leader becomes known late asks for its committed offset while the OffsetFetch for the
+    other partition is still in flight: it must be answered from the group's offset store by a request that
+    names it, not with 'no committed offset'"""
+    out = []
+    k = base_id
+    log = [data(3), data(3), data(3), data(3)]
+    for policy in ("earliest", "latest", "none"):
+        for mode in ("group", "group_assign"):
+            for gap in (0.02, 0.06, 0.15):
+                for slow in (0.1, 0.3):
+                    out.append({"id": k, "seed": k, "brokers": 2, "partitions": 2, "iso": 0, "policy": policy,
+                                "mode": mode, "logs": {"0": copy.deepcopy(log), "1": copy.deepcopy(log)},
+                                "log_start": {}, "committed": {"0": 4, "1": 7}, "faults": {},
+                                "latency": [0.001, 0.003], "api_latency": {"OffsetFetch": slow},
+                                "leaderless": [{"at": 0, "partition": 1, "for": gap}],
+                                "metadata_max_age_ms": 50, "inject": None, "consume": 2, "drain": 20.0})
+                    k += 1
+    return out
+
+
 def with_injections(base, n_events, kinds, next_id):
     out = []
     for p_str, n in n_events.items():
@@ -597,6 +618,7 @@ def run(ck: Check):
     bases += grid
     bases += finding_scenarios(150000)
     bases += oor_inflight_scenarios(160000)
+    bases += late_comer_scenarios(170000)
     bases += [gen_base(rng, i) for i in range(ck.n(100, 700))]
     t0 = _t.time()
     results = c03.run_scenarios(bases, timeout=ck.n(600, 2400), script="c13_sim.py")
